@@ -286,10 +286,11 @@ Proof.
   assert (Hk' : forall k', 0 <= k' -> man2 * 2 ^ k' < 2 ^ (mbits C + 8) -> 2 ^ k' <= 31).
   { intros k' Hk'0 Hlt. rewrite E8 in Hlt. assert (0 < 2 ^ k') by (apply pow2_pos; lia).
     clear - Hlt H Hq2 HL HP. nia. }
-  assert (HA := norm_partA C true 1 1 Nm (2 ^ c_bias C) neg OFF (E + k) man2 r S HC ltac:(unfold OFF; lia) HS HDn HSD
-                  ltac:(lia) ltac:(lia) Hnp).
-  assert (HBC := norm_partBC C Nm (2 ^ c_bias C) neg OFF (E + k) man2 r S HC ltac:(unfold OFF; lia) HS HDn HSD
-                  ltac:(lia) Hnp).
+  assert (HSD1 : S * 2 ^ c_bias C = 2 ^ (OFF + 8) * 1) by lia.
+  assert (HA := norm_partA C true 1 1 Nm (2 ^ c_bias C) neg OFF (E + k) man2 r S 1 HC ltac:(unfold OFF; lia) HS HDn
+                  ltac:(lia) HSD1 ltac:(lia) ltac:(lia) Hnp).
+  assert (HBC := norm_partBC C Nm (2 ^ c_bias C) neg OFF (E + k) man2 r S 1 HC ltac:(unfold OFF; lia) HS HDn
+                  ltac:(lia) HSD1 ltac:(lia) Hnp).
   assert (HA' : forall b0, r = Ok b0 -> buf_ok C b0 /\
             (if f_zero b0 then Nm < 2 ^ mbits C * 2 ^ c_bias C
              else f_neg C b0 = neg /\ err_ok true (1 * Z.abs (f_mag C b0 * 2 ^ c_bias C - Nm)) (1 * 2 ^ f_exp b0 * 2 ^ c_bias C))).
@@ -299,11 +300,11 @@ Proof.
       set (u := 2 ^ (E + k - k' + OFF)). assert (Hu : 0 < u) by (apply pow2_pos; lia).
       assert (Eu : 2 ^ (E + k + OFF) = 2 ^ k' * u).
       { unfold u. rewrite <- pow2_split by lia. f_equal. lia. }
-      rewrite Eu in HVlo, HVhi. rewrite Eu.
+      rewrite Eu in HVlo, HVhi. rewrite Eu. rewrite !Z.mul_1_r.
       rewrite Z.abs_eq by lia. assert (0 < 2 ^ k') by (apply pow2_pos; lia).
       clear - HVlo HVhi Hk' Hu H. nia.
     - (* zero clause: man2 < T with 16 | T, so man1 < T as well *)
-      intros HV.
+      intros k' _ _ _ _ HV. rewrite Z.mul_1_r.
       destruct (Z.le_gt_cases (E + k) (mbits C + 4)) as [Hsm|Hbg].
       + set (T := 2 ^ (mbits C + 4 - (E + k))).
         assert (HT : 0 < T) by (apply pow2_pos; lia).
@@ -329,8 +330,11 @@ Proof.
                   | _ => False
                   end) /\ (2 ^ mbits C * 2 ^ 255 * 2 ^ c_bias C <= Nm -> r = Host 5)).
   { apply HBC.
-    - assert (0 < 2 ^ (255 + OFF)) by (apply pow2_pos; unfold OFF; lia). lia.
-    - intros k' Hk'0 Hr' _. specialize (Hk' k' Hk'0 (proj2 Hr')).
+    - intros k' Hk'0 Hr' _. rewrite !Z.mul_1_r.
+      assert (Hq0 : 0 < 2 ^ (E + k + OFF)) by (apply pow2_pos; unfold OFF in *; lia).
+      assert (0 < 2 ^ k') by (apply pow2_pos; lia).
+      clear - HVlo Hq0 H. nia.
+    - intros k' Hk'0 Hr' _. rewrite !Z.mul_1_r. specialize (Hk' k' Hk'0 (proj2 Hr')).
       assert (Hq0 : 0 < 2 ^ (E + k + OFF)) by (apply pow2_pos; unfold OFF in *; lia).
       clear - HVhi Hk' Hq0. nia. }
   destruct HBC' as [HB HCv]. split; [|exact HCv].
